@@ -209,7 +209,9 @@ type tables struct {
 	jsW  map[*ssa.Function][]*site
 	jsR  map[*ssa.Function][]*site
 	gobW map[*ssa.Function][]*site
-	gobR map[*ssa.Function][]*site
+	// functions/closures that store into the property map under a key parameter
+	gobHelpers map[*ssa.Function][]gobHelper
+	gobR       map[*ssa.Function][]*site
 	// problems found while extracting (unresolvable names, …), reported by the rules that care
 	nameProblems []*site
 	getter       map[*ssa.Function]*getterSummary
@@ -221,14 +223,230 @@ func buildTables(w *World) (*tables, error) {
 		return nil, err
 	}
 	t := &tables{w: w, pr: newProver(w), pw: pw, jsW: map[*ssa.Function][]*site{}, jsR: map[*ssa.Function][]*site{},
-		gobW: map[*ssa.Function][]*site{}, gobR: map[*ssa.Function][]*site{}}
+		gobW: map[*ssa.Function][]*site{}, gobR: map[*ssa.Function][]*site{}, gobHelpers: map[*ssa.Function][]gobHelper{}}
 	t.buildGetterSummaries()
 	for _, f := range w.Funcs {
 		t.extractJSONWrites(f)
 		t.extractGobWrites(f)
 		t.extractReads(f)
 	}
+	for _, f := range w.Funcs {
+		t.extractGobHelperCalls(f)
+	}
 	return t, nil
+}
+
+type gobHelper struct {
+	mu       *ssa.MapUpdate
+	keyParam int
+}
+
+// paramIndexOf: v is (a conversion of) a parameter of f: its index, else -1.
+func paramIndexOf(f *ssa.Function, v ssa.Value) int {
+	v = unwrap(v)
+	for i, p := range f.Params {
+		if ssa.Value(p) == v {
+			return i
+		}
+	}
+	return -1
+}
+
+// producerOf: the package function whose result v is (through extracts, phis of one call, conversions).
+func producerOf(v ssa.Value) *ssa.Function {
+	for i := 0; i < 6; i++ {
+		switch x := v.(type) {
+		case *ssa.Extract:
+			v = x.Tuple
+		case *ssa.Call:
+			return x.Common().StaticCallee()
+		case *ssa.Convert:
+			v = x.X
+		case *ssa.ChangeType:
+			v = x.X
+		default:
+			return nil
+		}
+	}
+	return nil
+}
+
+// literalTableRows: key is field kf of an element of a local slice literal of structs (the loop variable of a range
+// over it): returns, per row of the literal, the values stored into its fields.
+func literalTableRows(key ssa.Value) (rows []map[int]ssa.Value, kf int, ok bool) {
+	fld, isField := key.(*ssa.Field)
+	var elemAddr ssa.Value
+	if isField {
+		ld, isLd := fld.X.(*ssa.UnOp)
+		if !isLd || ld.Op != token.MUL {
+			return nil, 0, false
+		}
+		elemAddr = ld.X
+		kf = fld.Field
+	} else if ld, isLd := key.(*ssa.UnOp); isLd && ld.Op == token.MUL {
+		fa, isFA := ld.X.(*ssa.FieldAddr)
+		if !isFA {
+			return nil, 0, false
+		}
+		elemAddr = fa.X
+		kf = fa.Field
+	} else {
+		return nil, 0, false
+	}
+	// the loop variable is a local that receives the whole element: prop := *(&table[i])
+	if al, isAl := elemAddr.(*ssa.Alloc); isAl {
+		if sts := storesTo(al); len(sts) == 1 {
+			if ld, isLd := sts[0].Val.(*ssa.UnOp); isLd && ld.Op == token.MUL {
+				elemAddr = ld.X
+			}
+		}
+	}
+	ia, isIA := elemAddr.(*ssa.IndexAddr)
+	if !isIA {
+		return nil, 0, false
+	}
+	var arr ssa.Value
+	switch x := ia.X.(type) {
+	case *ssa.Slice:
+		arr = x.X
+	case *ssa.Alloc:
+		arr = x
+	default:
+		return nil, 0, false
+	}
+	al, isAlloc := arr.(*ssa.Alloc)
+	if !isAlloc {
+		return nil, 0, false
+	}
+	at, isArr := types.Unalias(al.Type().(*types.Pointer).Elem()).Underlying().(*types.Array)
+	if !isArr {
+		return nil, 0, false
+	}
+	byRow := map[int64]map[int]ssa.Value{}
+	for _, r := range *al.Referrers() {
+		switch x := r.(type) {
+		case *ssa.IndexAddr:
+			c, isConst := x.Index.(*ssa.Const)
+			if !isConst || c.Value == nil {
+				if x == ia {
+					continue
+				}
+				return nil, 0, false
+			}
+			j := c.Int64()
+			for _, r2 := range *x.Referrers() {
+				switch y := r2.(type) {
+				case *ssa.FieldAddr:
+					for _, r3 := range *y.Referrers() {
+						if st, isSt := r3.(*ssa.Store); isSt && st.Addr == ssa.Value(y) {
+							if byRow[j] == nil {
+								byRow[j] = map[int]ssa.Value{}
+							}
+							byRow[j][y.Field] = st.Val
+						}
+					}
+				case *ssa.Store:
+					// whole-struct store of a composite literal built in a local: *(&table[j]) = *complit
+					ld, isLd := y.Val.(*ssa.UnOp)
+					if y.Addr != ssa.Value(x) || !isLd || ld.Op != token.MUL {
+						return nil, 0, false
+					}
+					cl, isAl := ld.X.(*ssa.Alloc)
+					if !isAl {
+						return nil, 0, false
+					}
+					for _, r3 := range *cl.Referrers() {
+						fa, isFA := r3.(*ssa.FieldAddr)
+						if !isFA {
+							continue
+						}
+						for _, r4 := range *fa.Referrers() {
+							if st, isSt := r4.(*ssa.Store); isSt && st.Addr == ssa.Value(fa) {
+								if byRow[j] == nil {
+									byRow[j] = map[int]ssa.Value{}
+								}
+								byRow[j][fa.Field] = st.Val
+							}
+						}
+					}
+				}
+			}
+		case *ssa.Slice:
+			// the slice the loop ranges over
+		default:
+			return nil, 0, false
+		}
+	}
+	if int64(len(byRow)) != at.Len() || len(byRow) == 0 {
+		return nil, 0, false
+	}
+	for j := int64(0); j < at.Len(); j++ {
+		row, okr := byRow[j]
+		if !okr || row[kf] == nil {
+			return nil, 0, false
+		}
+		rows = append(rows, row)
+	}
+	return rows, kf, true
+}
+
+// extractGobHelperCalls: one gob write site per call of a helper that stores under a key parameter.
+func (t *tables) extractGobHelperCalls(f *ssa.Function) {
+	for _, b := range f.Blocks {
+		for _, in := range b.Instrs {
+			call, ok := in.(ssa.CallInstruction)
+			if !ok {
+				continue
+			}
+			g := call.Common().StaticCallee()
+			hs := t.gobHelpers[g]
+			if g == nil || len(hs) == 0 {
+				continue
+			}
+			args := call.Common().Args
+			for _, h := range hs {
+				s := &site{kind: siteGobWrite, fn: f, instr: in, valArg: h.mu.Value}
+				if h.keyParam >= len(args) {
+					continue
+				}
+				k, isConst := constString(args[h.keyParam])
+				if !isConst {
+					if kp := paramIndexOf(f, args[h.keyParam]); kp >= 0 {
+						// a helper of a helper: one more level
+						t.gobHelpers[f] = append(t.gobHelpers[f], gobHelper{mu: h.mu, keyParam: kp})
+						continue
+					}
+					s.note = "map key is not a compile-time constant"
+					t.nameProblems = append(t.nameProblems, s)
+					continue
+				}
+				s.names = []string{k}
+				s.writer = producerOf(h.mu.Value)
+				s.guards = t.pr.dominatingGuards(b)
+				prov := newProv()
+				for i, a := range args {
+					if i == h.keyParam || isGobMap(a.Type()) {
+						continue
+					}
+					if _, isC := a.(*ssa.Const); isC {
+						continue
+					}
+					prov.merge(t.pr.prov(a))
+				}
+				refs := prov.list()
+				if len(refs) == 0 {
+					s.note = "value written does not derive from a struct field"
+					t.gobW[f] = append(t.gobW[f], s)
+					continue
+				}
+				for _, r := range refs {
+					cp := *s
+					cp.field = r
+					t.gobW[f] = append(t.gobW[f], &cp)
+				}
+			}
+		}
+	}
 }
 
 func (t *tables) extractJSONWrites(f *ssa.Function) {
@@ -402,6 +620,57 @@ func (t *tables) extractGobWrites(f *ssa.Function) {
 			s := &site{kind: siteGobWrite, fn: f, instr: in, valArg: mu.Value}
 			if k, ok := constString(mu.Key); ok {
 				s.names = []string{k}
+			} else if kp := paramIndexOf(f, mu.Key); kp >= 0 {
+				// a helper (function or local closure) that stores under a key it is given: the sites are its calls
+				t.gobHelpers[f] = append(t.gobHelpers[f], gobHelper{mu: mu, keyParam: kp})
+				continue
+			} else if rows, kf, ok := literalTableRows(mu.Key); ok {
+				// for _, p := range []struct{key string; val Item}{{"a", x.A}, …} { mm[p.key] = enc(p.val) }: one site per row
+				var writer *ssa.Function
+				if c, ok := mu.Value.(*ssa.Extract); ok {
+					if call, ok := c.Tuple.(*ssa.Call); ok {
+						writer = call.Common().StaticCallee()
+					}
+				} else if call, ok := mu.Value.(*ssa.Call); ok {
+					writer = call.Common().StaticCallee()
+				}
+				if writer == nil {
+					// raw, err := enc(p.val); mm[p.key] = raw
+					writer = producerOf(mu.Value)
+				}
+				bad := false
+				for _, row := range rows {
+					k, ok := constString(row[kf])
+					if !ok {
+						bad = true
+						break
+					}
+					rs := &site{kind: siteGobWrite, fn: f, instr: in, valArg: mu.Value, names: []string{k}, writer: writer}
+					rs.guards = t.pr.dominatingGuards(b)
+					prov := newProv()
+					for fi, v := range row {
+						if fi != kf {
+							prov.merge(t.pr.prov(v))
+						}
+					}
+					refs := prov.list()
+					if len(refs) == 0 {
+						rs.note = "value written does not derive from a struct field"
+						t.gobW[f] = append(t.gobW[f], rs)
+						continue
+					}
+					for _, r := range refs {
+						cp := *rs
+						cp.field = r
+						t.gobW[f] = append(t.gobW[f], &cp)
+					}
+				}
+				if !bad {
+					continue
+				}
+				s.note = "map key is not a compile-time constant"
+				t.nameProblems = append(t.nameProblems, s)
+				continue
 			} else {
 				s.note = "map key is not a compile-time constant"
 				t.nameProblems = append(t.nameProblems, s)
